@@ -42,3 +42,24 @@ Definition mem_ic (x : string) (l : list string) : bool := existsb (ic_eqb x) l.
 (* registry keyed by lower(): first stored spelling *)
 Fixpoint ic_find (x : string) (l : list string) : option string :=
   match l with [] => None | y :: t => if ic_eqb x y then Some y else ic_find x t end.
+
+(* repr(str) on Latin-1 text: quote choice, backslash, \t \n \r, \xNN for the non-printable code points *)
+Open Scope string_scope.
+Definition hexdig (n : nat) : ascii := if (n <? 10)%nat then Ascii.ascii_of_nat (48 + n) else Ascii.ascii_of_nat (87 + n).
+Definition has_char (c : ascii) (s : string) : bool := substrb (String c EmptyString) s.
+Definition repr_char (q : ascii) (c : ascii) : string :=
+  let n := nat_of_ascii c in
+  if (n =? 92)%nat then "\\"
+  else if (n =? 9)%nat then "\t"
+  else if (n =? 10)%nat then "\n"
+  else if (n =? 13)%nat then "\r"
+  else if Ascii.eqb c q then String "\"%char (String c EmptyString)
+  else if ((n <? 32) || ((127 <=? n) && (n <=? 160)) || (n =? 173))%nat
+       then String "\"%char (String "x"%char (String (hexdig (n / 16)) (String (hexdig (n mod 16)) EmptyString)))
+  else String c EmptyString.
+Fixpoint sconcat_map (f : ascii -> string) (s : string) : string :=
+  match s with EmptyString => EmptyString | String c t => f c ++ sconcat_map f t end.
+Definition py_repr_str (s : string) : string :=
+  let q := if has_char "'"%char s && negb (has_char """"%char s) then """"%char else "'"%char in
+  String q (sconcat_map (repr_char q) s ++ String q EmptyString).
+Close Scope string_scope.
